@@ -177,19 +177,26 @@ def run(ctx):
                 ctx.check(N.rat_equal(arg[i], want), "C01:inverse:%s.b_to_cell[%d]" % (short, i),
                           "reciprocal cell component %d from B/tau: code %s ; reference %s"
                           % (i, N.short(scalar(arg[i])), N.short(want)), core.loc(mod, fn))
-        # ---- form_a_mat_inv
+        # ---- form_a_mat_inv: its value times form_a_mat(cell) is the identity, however it is computed (inv(), a closed form)
         fn = mod.func("form_a_mat_inv"); ctx.saw(mod, fn)
-        seen2 = {}
-
-        def pol2(name, args, kwargs, node):
-            if name == "form_a_mat":
-                seen2["arg"] = vkey(args[0])
-                return Opaque("form_a_mat(cell)", (3, 3))
-            return NotImplemented
-        out = Evaluator(mod, inline=True, call_policy=pol2).call_function("form_a_mat_inv", [uc])
-        ctx.check(isinstance(out, Opaque) and out.base == "inv(form_a_mat(cell))" and seen2.get("arg") == vkey(uc),
-                  "C01:inverse:%s.form_a_mat_inv" % short,
-                  "form_a_mat_inv is not inv(form_a_mat(unit_cell)): %r" % (out,), core.loc(mod, fn))
+        from xfabsa import numeval
+        Ainv = Evaluator(mod, inline=True).call_function("form_a_mat_inv", [uc])
+        Afull = Evaluator(mod, inline=True).call_function("form_a_mat", [uc])
+        Ainv = Ainv if isinstance(Ainv, Arr) else materialise(Ainv)
+        Afull = Afull if isinstance(Afull, Arr) else materialise(Afull)
+        if Ainv is None or Afull is None or Ainv.shape != (3, 3) or Afull.shape != (3, 3):
+            raise AnalysisError("%s.form_a_mat_inv / form_a_mat do not evaluate to explicit 3x3 matrices" % short)
+        domain = {"%s[%d]" % (uc.base, i): ((3, 12) if i < 3 else (70, 110)) for i in range(6)}
+        bad = None
+        for i in range(3):
+            for j in range(3):
+                p = sum((scalar(Ainv.data[i][k]) * scalar(Afull.data[k][j]) for k in range(3)), Rat.const(0))
+                r = numeval.decide_equal(p, Rat.const(1 if i == j else 0), domain)
+                if r is not True and bad is None:
+                    bad = (i, j, N.short(p, 120), r[1])
+        ctx.check(bad is None, "C01:inverse:%s.form_a_mat_inv" % short,
+                  "form_a_mat_inv(cell) . form_a_mat(cell) is not the identity: entry (%s, %s) is %s (e.g. %s at the cell %s)"
+                  % ((bad[0], bad[1], bad[2], "%.6g" % bad[3]["left"], sorted(bad[3]["at"].items())) if bad else ("", "", "", "", "")), core.loc(mod, fn))
     ctx.not_decided += ["floating-point error of the round trips (arccos near +-1, inv of an ill-conditioned A)",
                         "the conditioning bound (Gram determinant >= 0.02) is not turned into an error bound"]
     ctx.assumptions += ["numpy's cos, sin, sqrt, arccos, dot, transpose, linalg.inv compute what their names say",
